@@ -1,31 +1,1750 @@
-//! C10 — placeholder (not registered in MANIFEST until built).
+//! C10 — what was acknowledged survives any crash; what was not is invisible.
+//!
+//! Sim: a client issues Submit (WAL-acknowledged), Stage, Tick and Restart ops against a real
+//! `TrustedRuntimeHost` with a real `FilesystemWalStore` on tmpfs. Faults: process death at any
+//! WAL I/O point (hook H5) with a torn in-flight append / leftover temp file / undone rename,
+//! including death during recovery itself; the four `FilesystemWalFaultTarget`s plus a blocked
+//! ledger write; idle sessions; a store-level manifest-publish session. A second, hook-free mode
+//! cuts the final segment at sampled (thorough: all) byte lengths combined with every ledger
+//! version that can coexist with the prefix.
+//!
+//! Oracle: refinement against a crash-free twin. `durable(I)` is decided by the harness's own
+//! record parser; the recovered host must equal, on an explicit list of observables, a live host
+//! in a fresh directory that executed exactly the durable ops.
+
+pub mod disk;
+mod sweep;
+pub mod world;
+
+use std::cell::RefCell;
+use std::collections::BTreeSet;
+use std::panic::{catch_unwind, resume_unwind, AssertUnwindSafe};
+use std::path::{Path, PathBuf};
+use std::rc::Rc;
 
 use serde::{Deserialize, Serialize};
+use warp_core::causal_wal::{
+    validate_filesystem_manifest, FilesystemWalFaultPlan, FilesystemWalFaultTarget, FilesystemWalStore, Lsn, WalManifest,
+    WalSegmentId, WalStorePort,
+};
+use warp_core::{Hash, TrustedRuntimeHost};
 
 use crate::kernel::{Outcome, PropertySpec, Rng, RunCtx, Scenario, Tier};
+use crate::world::prog::Prog;
+use crate::world::rules::callbacks;
+
+use disk::{CommitInfo, Tree};
+use world::{Obs, ObsErr};
 
 pub const SPEC: PropertySpec = PropertySpec {
     id: "C10",
-    level: "exploration",
-    rule: "placeholder",
-    quick_runs: 1,
-    thorough_runs: 1,
-    real_components: &[],
-    stub_components: &[],
-    assumptions: &[],
-    fault_kinds: &[],
+    level: "fault_enumeration",
+    rule: "scenario = generated interpreter programs + op history (submit/stage/tick/restart/manifest session) + fault plan (crash at io-point k with torn class, crashes during reopen, store faults) or a prefix sweep (segment cut x coexisting ledger version); non-trivial = at least one fault fired on a log with >= 1 committed transaction; distinct = hash of scenario",
+    quick_runs: 3_000,
+    thorough_runs: 30_000,
+    real_components: &[
+        "warp_core::TrustedRuntimeHost / TrustedRuntimeApp (submit_intent_with_runtime_wal_ack, admit_installed_contract_submission, tick_once, enable_runtime_wal, recover_read_only)",
+        "warp_core::causal_wal::FilesystemWalStore on tmpfs (segments, writer-epoch ledger, manifest)",
+        "recover_wal_segment_bytes, validate_filesystem_manifest",
+        "Engine + SchedulerCoordinator + ProvenanceService (runtime ingress path)",
+    ],
+    stub_components: &["application contract = data-driven interpreter rule (programs are generated data)"],
+    assumptions: &[
+        "crash model: synced bytes are durable; the unsynced tail of a segment survives as an arbitrary prefix (no page reordering); temp+rename is atomic, an un-synced rename may be undone",
+        "single worldline, single writer head (the filesystem store refuses multi-head tick batches by design)",
+        "staging (inbox) and idle scheduler passes are volatile by design: the twin applies them only together with the durable tick that consumed them",
+    ],
+    fault_kinds: &[
+        "fault.crash.seg.append.begin",
+        "fault.crash.seg.append.written",
+        "fault.crash.seg.append.synced",
+        "fault.crash.rewrite.removed",
+        "fault.crash.rewrite.created",
+        "fault.crash.rewrite.synced",
+        "fault.crash.ledger.tmp.synced",
+        "fault.crash.ledger.renamed",
+        "fault.crash.manifest.tmp.synced",
+        "fault.crash.manifest.renamed",
+        "fault.crash_during_recovery",
+        "fault.crash_inside_rewrite",
+        "fault.torn.zero",
+        "fault.torn.full",
+        "fault.torn.inside",
+        "fault.torn.header",
+        "fault.torn.digest",
+        "fault.torn.drop_unsynced",
+        "fault.rename_undone",
+        "fault.store.append_frame",
+        "fault.store.flush_commit",
+        "fault.store.commit_marker_synced",
+        "fault.store.publish_manifest",
+        "fault.store.ledger_blocked",
+        "fault.idle_session",
+        "fault.prefix_cut",
+    ],
 };
+
+pub const MAX_CRASHES: u32 = 3;
+
+#[derive(Clone, Debug, Serialize, Deserialize, PartialEq, Eq)]
+pub struct CrashPoint {
+    /// Ordinal of the io point within the operation (points inside a rewrite window are not
+    /// counted in avoidance mode).
+    pub k: u32,
+    /// 0 zero, 1 full, 2 inside, 3 header, 4 digest, 5 drop all unsynced bytes.
+    pub torn: u8,
+    pub frac: u16,
+    /// A completed but not yet directory-synced rename is kept (true) or undone (false).
+    pub keep_rename: bool,
+}
+
+#[derive(Clone, Debug, Serialize, Deserialize, PartialEq, Eq)]
+pub enum Fault {
+    Crash { at: CrashPoint, reopen: Vec<CrashPoint> },
+    /// 0..=3 = the four `FilesystemWalFaultTarget`s, 4 = ledger temp path blocked.
+    Store { target: u8 },
+}
+
+#[derive(Clone, Debug, Serialize, Deserialize, PartialEq, Eq)]
+pub enum Op {
+    Submit(usize),
+    Stage(usize),
+    Tick,
+    Restart { reopen: Vec<CrashPoint> },
+    /// Store-level session between two host sessions: open the store, take a writer epoch,
+    /// publish a manifest (optionally with the PublishManifest fault or a crash), close.
+    Manifest { fault: bool, crash: Option<CrashPoint> },
+}
+
+#[derive(Clone, Debug, Serialize, Deserialize, PartialEq, Eq)]
+pub struct OpEntry {
+    pub op: Op,
+    pub fault: Option<Fault>,
+}
+
+#[derive(Clone, Debug, Serialize, Deserialize, PartialEq, Eq)]
+pub enum Mode {
+    History,
+    /// Hook-free: crash-free workload, then segment prefixes x coexisting ledger versions.
+    Sweep { cuts: Vec<u32>, all_bytes: bool },
+}
 
 #[derive(Clone, Debug, Serialize, Deserialize)]
 pub struct C10 {
-    pub placeholder: u8,
+    pub avoid: bool,
+    pub mode: Mode,
+    pub progs: Vec<Prog>,
+    /// Programs used to make a session non-idle in avoidance mode.
+    pub fillers: Vec<Prog>,
+    pub ops: Vec<OpEntry>,
+    /// Compare the live host with the twin after every durable tick (not only at recoveries).
+    pub deep: bool,
+}
+
+// ---------------------------------------------------------------------------------------------
+// Generation
+// ---------------------------------------------------------------------------------------------
+
+fn gen_crash_point(rng: &mut Rng, span: u32) -> CrashPoint {
+    CrashPoint {
+        k: if rng.chance(1, 8) { rng.below(u64::from(span) * 3 + 1) as u32 } else { rng.below(u64::from(span)) as u32 },
+        torn: rng.weighted(&[2, 2, 3, 2, 2, 1]) as u8,
+        frac: rng.below(65_536) as u16,
+        keep_rename: rng.chance(1, 2),
+    }
+}
+
+fn gen_reopen_crashes(rng: &mut Rng, budget: &mut u32, avoid: bool) -> Vec<CrashPoint> {
+    let mut v = Vec::new();
+    while *budget > 0 && rng.chance(1, 3) {
+        // Reopen: (rewrite: removed, created, 2 per record, synced) + ledger close (2) + ledger open (2).
+        let span = if avoid { 3 } else { *rng.pick(&[4u32, 8, 16, 40]) };
+        v.push(gen_crash_point(rng, span));
+        *budget -= 1;
+    }
+    v
 }
 
 impl Scenario for C10 {
-    fn generate(_rng: &mut Rng, _tier: Tier, _avoid: bool) -> Self {
-        C10 { placeholder: 0 }
+    fn generate(rng: &mut Rng, tier: Tier, avoid: bool) -> Self {
+        let sweep_den = if tier == Tier::Thorough { 25 } else { 12 };
+        if rng.chance(1, sweep_den) {
+            return sweep::generate(rng, tier, avoid);
+        }
+        let n_progs = rng.urange(2, 7);
+        let progs: Vec<Prog> = (0..n_progs).map(|i| world::gen_prog(rng, 1 + i as u32)).collect();
+        let fillers: Vec<Prog> = (0..8).map(|i| world::gen_prog(rng, 0x4000_0000 + i as u32)).collect();
+        let n_ops = rng.urange(4, if tier == Tier::Thorough { 28 } else { 20 });
+        let mut budget = rng.urange(0, MAX_CRASHES as usize) as u32;
+        let store_fault_pct = *rng.pick(&[0u64, 5, 15, 30]);
+        let crash_pct = *rng.pick(&[5u64, 15, 30]);
+        let restart_w = *rng.pick(&[0u32, 1, 2, 4]);
+        let dup_w = *rng.pick(&[0u32, 1, 2]);
+        let idle_tick_w = *rng.pick(&[0u32, 0, 1]);
+        let manifest_w = if avoid { 0 } else { *rng.pick(&[0u32, 0, 1]) };
+
+        // Generation-time model (only to keep the history meaningful; execution re-derives everything).
+        let mut submitted: Vec<usize> = Vec::new();
+        let mut staged: Vec<usize> = Vec::new();
+        let mut decided: Vec<usize> = Vec::new();
+        let mut next = 0usize;
+        let mut ops = Vec::new();
+        for _ in 0..n_ops {
+            let stageable: Vec<usize> = submitted.iter().copied().filter(|p| !staged.contains(p) && !decided.contains(p)).collect();
+            let w = [
+                if next < n_progs { 6 } else { 0 },
+                if submitted.is_empty() { 0 } else { dup_w },
+                if stageable.is_empty() { 0 } else { 6 },
+                if staged.is_empty() { idle_tick_w } else { 6 },
+                restart_w,
+                manifest_w,
+                if submitted.is_empty() { 0 } else { 1 }, // stage of something arbitrary (duplicate / decided / unknown)
+            ];
+            if w.iter().all(|x| *x == 0) {
+                break;
+            }
+            let choice = rng.weighted(&w);
+            let mut entry = match choice {
+                0 => {
+                    submitted.push(next);
+                    next += 1;
+                    OpEntry { op: Op::Submit(next - 1), fault: None }
+                }
+                1 => OpEntry { op: Op::Submit(*rng.pick(&submitted)), fault: None },
+                2 => {
+                    let p = *rng.pick(&stageable);
+                    staged.push(p);
+                    OpEntry { op: Op::Stage(p), fault: None }
+                }
+                3 => {
+                    decided.append(&mut staged);
+                    OpEntry { op: Op::Tick, fault: None }
+                }
+                4 => {
+                    staged.clear();
+                    let reopen = gen_reopen_crashes(rng, &mut budget, avoid);
+                    OpEntry { op: Op::Restart { reopen }, fault: None }
+                }
+                5 => {
+                    staged.clear();
+                    let crash = if budget > 0 && rng.chance(1, 3) {
+                        budget -= 1;
+                        Some(gen_crash_point(rng, 6))
+                    } else {
+                        None
+                    };
+                    OpEntry { op: Op::Manifest { fault: rng.chance(1, 3), crash }, fault: None }
+                }
+                _ => OpEntry { op: Op::Stage(rng.usize_below(n_progs)), fault: None },
+            };
+            let writes = matches!(choice, 0 | 3);
+            if writes {
+                if budget > 0 && rng.below(100) < crash_pct {
+                    budget -= 1;
+                    // A transaction is 3 frames + commit: 2 points per append, 1 sync, 2 ledger points.
+                    let at = gen_crash_point(rng, 11);
+                    let reopen = gen_reopen_crashes(rng, &mut budget, avoid);
+                    entry.fault = Some(Fault::Crash { at, reopen });
+                    staged.clear();
+                    // Whether the op survived is decided at execution; keep the generation model optimistic.
+                } else if rng.below(100) < store_fault_pct {
+                    entry.fault = Some(Fault::Store { target: rng.below(5) as u8 });
+                }
+            }
+            ops.push(entry);
+        }
+        C10 { avoid, mode: Mode::History, progs, fillers, ops, deep: rng.chance(1, 3) }
     }
-    fn execute(&self, _ctx: &mut RunCtx) -> Outcome {
-        Outcome::Ok
+
+    fn execute(&self, ctx: &mut RunCtx) -> Outcome {
+        match &self.mode {
+            Mode::History => match Run::start(self, ctx) {
+                Ok(mut run) => {
+                    let r = run.history();
+                    run.finish();
+                    match r {
+                        Ok(()) => Outcome::Ok,
+                        Err(o) => o,
+                    }
+                }
+                Err(o) => o,
+            },
+            Mode::Sweep { cuts, all_bytes } => sweep::execute(self, cuts, *all_bytes, ctx),
+        }
     }
+
+    fn shrink_candidates(&self) -> Vec<Self> {
+        let mut out = Vec::new();
+        if let Mode::Sweep { cuts, all_bytes } = &self.mode {
+            for i in 0..cuts.len() {
+                let mut c = self.clone();
+                let mut v = cuts.clone();
+                v.remove(i);
+                c.mode = Mode::Sweep { cuts: v, all_bytes: *all_bytes };
+                out.push(c);
+            }
+            if *all_bytes {
+                let mut c = self.clone();
+                c.mode = Mode::Sweep { cuts: cuts.clone(), all_bytes: false };
+                out.push(c);
+            }
+        }
+        // Drop ops (from the end first: later ops are rarely needed).
+        for i in (0..self.ops.len()).rev() {
+            let mut c = self.clone();
+            c.ops.remove(i);
+            out.push(c);
+        }
+        // Drop or simplify faults.
+        for i in 0..self.ops.len() {
+            if self.ops[i].fault.is_some() {
+                let mut c = self.clone();
+                c.ops[i].fault = None;
+                out.push(c);
+            }
+            if let Some(Fault::Crash { at, reopen }) = &self.ops[i].fault {
+                for j in 0..reopen.len() {
+                    let mut c = self.clone();
+                    let mut r = reopen.clone();
+                    r.remove(j);
+                    c.ops[i].fault = Some(Fault::Crash { at: at.clone(), reopen: r });
+                    out.push(c);
+                }
+                for simpler in simpler_points(at) {
+                    let mut c = self.clone();
+                    c.ops[i].fault = Some(Fault::Crash { at: simpler, reopen: reopen.clone() });
+                    out.push(c);
+                }
+                for (j, rp) in reopen.iter().enumerate() {
+                    for simpler in simpler_points(rp) {
+                        let mut c = self.clone();
+                        let mut r = reopen.clone();
+                        r[j] = simpler;
+                        c.ops[i].fault = Some(Fault::Crash { at: at.clone(), reopen: r });
+                        out.push(c);
+                    }
+                }
+            }
+            if let Op::Restart { reopen } = &self.ops[i].op {
+                for j in 0..reopen.len() {
+                    let mut c = self.clone();
+                    let mut r = reopen.clone();
+                    r.remove(j);
+                    c.ops[i].op = Op::Restart { reopen: r };
+                    out.push(c);
+                }
+                for (j, rp) in reopen.iter().enumerate() {
+                    for simpler in simpler_points(rp) {
+                        let mut c = self.clone();
+                        let mut r = reopen.clone();
+                        r[j] = simpler;
+                        c.ops[i].op = Op::Restart { reopen: r };
+                        out.push(c);
+                    }
+                }
+            }
+            if let Op::Manifest { fault, crash } = &self.ops[i].op {
+                if crash.is_some() || *fault {
+                    let mut c = self.clone();
+                    c.ops[i].op = Op::Manifest { fault: false, crash: None };
+                    out.push(c);
+                }
+            }
+        }
+        // Drop unused trailing programs and fillers.
+        if let Some(last) = self.progs.len().checked_sub(1) {
+            let used = self.ops.iter().any(|e| matches!(&e.op, Op::Submit(p) | Op::Stage(p) if *p == last));
+            if !used && last > 0 {
+                let mut c = self.clone();
+                c.progs.pop();
+                out.push(c);
+            }
+        }
+        if !self.fillers.is_empty() {
+            let mut c = self.clone();
+            c.fillers.pop();
+            out.push(c);
+        }
+        // Simplify programs.
+        for i in 0..self.progs.len() {
+            if self.progs[i].steps.len() > 1 {
+                let mut c = self.clone();
+                c.progs[i].steps.truncate(1);
+                out.push(c);
+            }
+        }
+        if self.deep {
+            let mut c = self.clone();
+            c.deep = false;
+            out.push(c);
+        }
+        out
+    }
+}
+
+fn simpler_points(p: &CrashPoint) -> Vec<CrashPoint> {
+    let mut v = Vec::new();
+    if p.k > 0 {
+        v.push(CrashPoint { k: p.k / 2, ..p.clone() });
+        v.push(CrashPoint { k: p.k - 1, ..p.clone() });
+    }
+    if p.torn != 1 {
+        v.push(CrashPoint { torn: 1, ..p.clone() });
+    }
+    if p.frac != 0 {
+        v.push(CrashPoint { frac: 0, ..p.clone() });
+    }
+    if !p.keep_rename {
+        v.push(CrashPoint { keep_rename: true, ..p.clone() });
+    }
+    v
+}
+
+// ---------------------------------------------------------------------------------------------
+// Crash images (hook H5 observer)
+// ---------------------------------------------------------------------------------------------
+
+/// Private unwinding payload = process death.
+struct CrashSignal;
+
+const TORN_NAMES: [&str; 6] = ["zero", "full", "inside", "header", "digest", "drop_unsynced"];
+
+#[derive(Clone, Debug)]
+pub struct Fired {
+    pub kind: String,
+    pub torn: Option<&'static str>,
+    pub in_rewrite: bool,
+    pub rename_undone: bool,
+}
+
+#[derive(Default)]
+struct Tracker {
+    root: PathBuf,
+    /// Durable length per segment file (relative path).
+    synced: std::collections::BTreeMap<String, u64>,
+    /// Start offset of the most recent append (valid at seg.append.* points).
+    last_append: Option<(String, u64)>,
+    in_rewrite: bool,
+    /// Content of the rename target before the most recent temp write (None = absent).
+    prev_target: Option<Option<Vec<u8>>>,
+    count: u32,
+    target: Option<CrashPoint>,
+    avoid: bool,
+    image_root: PathBuf,
+    fired: Option<Fired>,
+    kinds: Vec<String>,
+    saw_rewrite: bool,
+}
+
+impl Tracker {
+    fn resync(&mut self) {
+        self.synced.clear();
+        for (rel, bytes) in disk::read_tree(&self.root) {
+            if disk::is_segment(&rel) {
+                self.synced.insert(rel, bytes.len() as u64);
+            }
+        }
+        self.last_append = None;
+        self.in_rewrite = false;
+        self.prev_target = None;
+    }
+
+    fn rel(&self, p: &Path) -> String {
+        p.strip_prefix(&self.root).map(|r| r.to_string_lossy().replace('\\', "/")).unwrap_or_else(|_| p.to_string_lossy().into_owned())
+    }
+
+    /// Returns true when the process must die now (image already written).
+    fn on_point(&mut self, kind: &str, path: &Path) -> bool {
+        self.kinds.push(kind.to_owned());
+        match kind {
+            "seg.append.begin" => {
+                let rel = self.rel(path);
+                self.last_append = Some((rel, disk::file_len(path)));
+            }
+            "seg.append.synced" => {
+                let rel = self.rel(path);
+                self.synced.insert(rel, disk::file_len(path));
+            }
+            "rewrite.removed" => {
+                self.in_rewrite = true;
+                self.saw_rewrite = true;
+                let root = self.root.clone();
+                self.synced.retain(|rel, _| root.join(rel).exists());
+            }
+            "rewrite.created" => {
+                self.in_rewrite = true;
+                self.saw_rewrite = true;
+                self.synced.insert(disk::SEGMENT_REL.to_owned(), 0);
+            }
+            "rewrite.synced" => {
+                self.in_rewrite = false;
+                let len = disk::file_len(&self.root.join(disk::SEGMENT_REL));
+                self.synced.insert(disk::SEGMENT_REL.to_owned(), len);
+            }
+            "ledger.tmp.synced" => {
+                self.prev_target = Some(std::fs::read(self.root.join(disk::LEDGER_REL)).ok());
+            }
+            "manifest.tmp.synced" => {
+                self.prev_target = Some(std::fs::read(self.root.join(disk::MANIFEST_REL)).ok());
+            }
+            _ => {}
+        }
+        if self.avoid && self.in_rewrite {
+            return false;
+        }
+        if self.avoid && kind == "ledger.renamed" {
+            // Avoidance: dying right after a fresh, still commit-less epoch became the ledger's
+            // active epoch would create an idle session (DESIGN §9 item 6 shape).
+            let ledger = std::fs::read(self.root.join(disk::LEDGER_REL)).unwrap_or_default();
+            let fresh = disk::ledger_info(&ledger).and_then(|l| l.active).is_some_and(|a| a.final_lsn.is_none());
+            if fresh {
+                return false;
+            }
+        }
+        let hit = matches!(&self.target, Some(t) if t.k == self.count);
+        self.count += 1;
+        if !hit {
+            return false;
+        }
+        let Some(cp) = self.target.take() else { return false };
+        self.write_image(kind, &cp);
+        true
+    }
+
+    fn write_image(&mut self, kind: &str, cp: &CrashPoint) {
+        let mut tree: Tree = disk::read_tree(&self.root);
+        let mut torn_name = None;
+        // Segment files: synced prefix + a prefix of the unsynced tail.
+        let rels: Vec<String> = tree.keys().filter(|r| disk::is_segment(r)).cloned().collect();
+        for rel in rels {
+            let len = tree.get(&rel).map_or(0, Vec::len) as u64;
+            let synced = self.synced.get(&rel).copied().unwrap_or(0).min(len);
+            if synced == len {
+                continue;
+            }
+            let inflight = match (&self.last_append, kind) {
+                (Some((r, start)), "seg.append.written") if *r == rel && *start >= synced && *start < len => Some(*start),
+                _ => None,
+            };
+            let frac = u64::from(cp.frac);
+            let cut = match (cp.torn, inflight) {
+                (5, _) => synced,
+                (1, _) => len,
+                (0, Some(start)) => start,
+                (2, Some(start)) => {
+                    let rl = len - start;
+                    if rl > 2 {
+                        start + 1 + frac % (rl - 1)
+                    } else {
+                        start
+                    }
+                }
+                (3, Some(start)) => (start + 1 + frac % 16).min(len - 1),
+                (4, Some(start)) => (len - 32 + frac % 32).max(start),
+                // No record in flight (begin point, ledger point, ...): any prefix of the unsynced tail.
+                (0, None) => len,
+                (_, None) => synced + frac % (len - synced + 1),
+                _ => len,
+            };
+            torn_name = Some(TORN_NAMES[usize::from(cp.torn.min(5))]);
+            if let Some(b) = tree.get_mut(&rel) {
+                b.truncate(cut as usize);
+            }
+        }
+        // Temp + rename.
+        let mut rename_undone = false;
+        let (target_rel, tmp_rel) = if kind.starts_with("ledger.") {
+            (disk::LEDGER_REL, disk::LEDGER_TMP_REL)
+        } else {
+            (disk::MANIFEST_REL, disk::MANIFEST_TMP_REL)
+        };
+        if kind.ends_with(".tmp.synced") {
+            // The crash may have happened anywhere during the temp write: keep an arbitrary prefix.
+            if let Some(b) = tree.get_mut(tmp_rel) {
+                let keep = usize::from(cp.frac) % (b.len() + 1);
+                if !cp.keep_rename {
+                    b.truncate(keep);
+                }
+            }
+        } else if kind.ends_with(".renamed") && !cp.keep_rename {
+            rename_undone = true;
+            let new = tree.remove(target_rel).unwrap_or_default();
+            if let Some(Some(prev)) = self.prev_target.clone() {
+                tree.insert(target_rel.to_owned(), prev);
+            }
+            tree.insert(tmp_rel.to_owned(), new);
+        }
+        if let Some(b) = tree.get_mut(disk::LOCK_REL) {
+            b.clear();
+        }
+        let _ = disk::write_tree(&self.image_root, &tree);
+        self.fired = Some(Fired { kind: kind.to_owned(), torn: torn_name, in_rewrite: self.in_rewrite, rename_undone });
+    }
+}
+
+enum Exec<T> {
+    Done(T),
+    Crashed(Fired),
+    Panicked(String),
+}
+
+fn panic_text(p: &(dyn std::any::Any + Send)) -> String {
+    if let Some(s) = p.downcast_ref::<&str>() {
+        (*s).to_owned()
+    } else if let Some(s) = p.downcast_ref::<String>() {
+        s.clone()
+    } else {
+        "non-string panic payload".to_owned()
+    }
+}
+
+/// Run `f` with the io observer installed; an unwinding `CrashSignal` is process death.
+fn observed<T>(tracker: &Rc<RefCell<Tracker>>, f: impl FnOnce() -> T) -> Exec<T> {
+    let t = Rc::clone(tracker);
+    warp_core::verif::install_io_observer(Some(Box::new(move |kind: &str, path: &Path| {
+        let die = t.borrow_mut().on_point(kind, path);
+        if die {
+            resume_unwind(Box::new(CrashSignal));
+        }
+    })));
+    let r = catch_unwind(AssertUnwindSafe(f));
+    warp_core::verif::install_io_observer(None);
+    match r {
+        Ok(v) => Exec::Done(v),
+        Err(p) => {
+            if p.is::<CrashSignal>() {
+                match tracker.borrow_mut().fired.take() {
+                    Some(f) => Exec::Crashed(f),
+                    None => Exec::Panicked("crash signal without image".to_owned()),
+                }
+            } else {
+                Exec::Panicked(panic_text(&*p))
+            }
+        }
+    }
+}
+
+// ---------------------------------------------------------------------------------------------
+// Model and run
+// ---------------------------------------------------------------------------------------------
+
+#[derive(Clone, Debug, PartialEq, Eq)]
+enum TxOp {
+    Submit(usize),
+    Tick(Vec<usize>),
+}
+
+#[derive(Clone, Debug)]
+struct Tx {
+    digest: disk::H,
+    kind: u8,
+    op: TxOp,
+}
+
+enum Pending {
+    Stage(usize, String),
+    IdleTick,
+}
+
+macro_rules! bail {
+    ($class:expr, $($fmt:tt)*) => {
+        return Err(Outcome::violation($class, format!($($fmt)*)))
+    };
+}
+
+type Res<T> = Result<T, Outcome>;
+
+fn harness<T>(r: Result<T, String>, what: &str) -> Res<T> {
+    r.map_err(|e| Outcome::violation(format!("harness:{what}"), e))
+}
+
+pub(crate) fn obs_of(host: &mut TrustedRuntimeHost, sub_ids: &[Hash], who: &str) -> Res<Obs> {
+    obs_of_h(host, sub_ids, who, false)
+}
+
+/// `hole`: a commit was written in an epoch whose start LSN skipped one (idle-session shape);
+/// read-only recovery of the live log then fails exactly like the next reopen would.
+pub(crate) fn obs_of_h(host: &mut TrustedRuntimeHost, sub_ids: &[Hash], who: &str, hole: bool) -> Res<Obs> {
+    match world::observe(host, sub_ids) {
+        Ok(o) => Ok(o),
+        Err(ObsErr::RootMismatch(d)) => Err(Outcome::violation("certificate_root_mismatch", format!("{who}: {d}"))),
+        Err(ObsErr::Api(d)) if hole && d.contains("LsnContinuityMismatch") => {
+            Err(Outcome::violation("reopen_failed:idle_session_lsn_gap", format!("read-only recovery of the live log ({who}): {d}")))
+        }
+        Err(ObsErr::Api(d)) => Err(Outcome::violation(format!("observe_failed:{who}"), d)),
+    }
+}
+
+struct Run<'a> {
+    ctx: &'a mut RunCtx,
+    sc: &'a C10,
+    all_progs: Vec<Prog>,
+    base: PathBuf,
+    root: PathBuf,
+    img_n: u32,
+    real: Option<TrustedRuntimeHost>,
+    twin: Option<TrustedRuntimeHost>,
+    tracker: Rc<RefCell<Tracker>>,
+    sub_ids: Vec<Hash>,
+    known: BTreeSet<usize>,
+    decided: BTreeSet<usize>,
+    staged: Vec<usize>,
+    committed: Vec<Tx>,
+    session_commits: u32,
+    /// Transaction kind codes learnt from acknowledged ops (submit, tick).
+    kind_codes: [Option<u8>; 2],
+    /// The current epoch started above last-committed-LSN + 1 (DESIGN §9 item 6 mechanism).
+    epoch_start_gap: bool,
+    /// Some epoch so far started with such a gap.
+    gap_epoch_seen: bool,
+    pending: Vec<Pending>,
+    crashes: u32,
+    next_filler: usize,
+    faults_fired: u32,
+    fault_on_nonempty_log: bool,
+}
+
+impl<'a> Run<'a> {
+    fn start(sc: &'a C10, ctx: &'a mut RunCtx) -> Res<Self> {
+        let base = ctx.scratch_dir();
+        Self::start_in(sc, ctx, base)
+    }
+
+    fn start_in(sc: &'a C10, ctx: &'a mut RunCtx, base: PathBuf) -> Res<Self> {
+        let mut all_progs = sc.progs.clone();
+        all_progs.extend(sc.fillers.iter().cloned());
+        let sub_ids = harness(world::submission_ids(&all_progs), "submission_ids")?;
+        let twin = harness(world::open_plain(&base.join("twin")), "twin_open")?;
+        let root = base.join("wal0");
+        let tracker = Rc::new(RefCell::new(Tracker { avoid: sc.avoid, root: root.clone(), ..Tracker::default() }));
+        let mut run = Run {
+            ctx,
+            sc,
+            all_progs,
+            base,
+            root,
+            img_n: 0,
+            real: None,
+            twin: Some(twin),
+            tracker,
+            sub_ids,
+            known: BTreeSet::new(),
+            decided: BTreeSet::new(),
+            staged: Vec::new(),
+            committed: Vec::new(),
+            session_commits: 0,
+            kind_codes: [None, None],
+            epoch_start_gap: false,
+            gap_epoch_seen: false,
+            pending: Vec::new(),
+            crashes: 0,
+            next_filler: sc.progs.len(),
+            faults_fired: 0,
+            fault_on_nonempty_log: false,
+        };
+        run.open_real(&[])?;
+        Ok(run)
+    }
+
+    fn finish(&mut self) {
+        self.real = None;
+        self.twin = None;
+        warp_core::verif::install_io_observer(None);
+        self.ctx.count("time.wal_transactions", self.committed.len() as u64);
+        self.ctx.count(&format!("reach.cycles_per_run.{}", self.crashes), 1);
+        let history: Vec<String> = self.committed.iter().map(|t| format!("{}:{:?}:{}", t.kind, t.op, disk::hex8(&t.digest))).collect();
+        self.ctx.trace_str(&history.join(";"));
+        if self.faults_fired > 0 && self.fault_on_nonempty_log {
+            let sig = serde_json::to_vec(self.sc).unwrap_or_default();
+            self.ctx.nontrivial(&sig);
+        }
+    }
+
+    fn fault_fired(&mut self, key: &str) {
+        self.ctx.hit(key);
+        self.faults_fired += 1;
+        if !self.committed.is_empty() {
+            self.fault_on_nonempty_log = true;
+        }
+    }
+
+    fn next_image_root(&mut self) -> PathBuf {
+        self.img_n += 1;
+        self.base.join(format!("img{}", self.img_n))
+    }
+
+    fn arm(&mut self, target: Option<CrashPoint>) {
+        let image_root = self.next_image_root();
+        let mut t = self.tracker.borrow_mut();
+        t.root = self.root.clone();
+        t.count = 0;
+        t.target = target;
+        t.image_root = image_root;
+        t.fired = None;
+        t.kinds.clear();
+        t.saw_rewrite = false;
+    }
+
+    fn trace_kinds(&mut self, what: &str) {
+        let (kinds, saw_rewrite) = {
+            let t = self.tracker.borrow();
+            (t.kinds.join(","), t.saw_rewrite)
+        };
+        if saw_rewrite {
+            self.ctx.hit("reach.recovery_rewrite");
+        }
+        self.ctx.trace_str(&format!("{what}:{kinds}"));
+    }
+
+    /// DESIGN §9 item 6 shape, read from the disk by the harness's own parser: an epoch started
+    /// above last-committed-LSN + 1 and frames written since then left a hole in the LSN sequence.
+    fn lsn_hole(&self) -> bool {
+        if !self.gap_epoch_seen {
+            return false;
+        }
+        let bytes = std::fs::read(self.root.join(disk::SEGMENT_REL)).unwrap_or_default();
+        disk::has_lsn_hole(&bytes)
+    }
+
+    fn live_commits(&self) -> Vec<CommitInfo> {
+        let bytes = std::fs::read(self.root.join(disk::SEGMENT_REL)).unwrap_or_default();
+        disk::commits_in(&bytes).0
+    }
+
+    fn committed_prefix_ok(&self, commits: &[CommitInfo]) -> bool {
+        commits.len() >= self.committed.len() && self.committed.iter().zip(commits).all(|(a, b)| a.digest == b.digest)
+    }
+
+    // ---- session management -------------------------------------------------------------
+
+    fn count_crash(&mut self, f: &Fired, during_recovery: bool) {
+        self.crashes += 1;
+        self.fault_fired(&format!("fault.crash.{}", f.kind));
+        if let Some(t) = f.torn {
+            self.ctx.hit(&format!("fault.torn.{t}"));
+        }
+        if f.in_rewrite {
+            self.ctx.hit("fault.crash_inside_rewrite");
+        }
+        if f.rename_undone {
+            self.ctx.hit("fault.rename_undone");
+        }
+        if during_recovery {
+            self.ctx.hit("fault.crash_during_recovery");
+        }
+    }
+
+    /// The process died: adopt the image, decide `durable(I)` with the harness's own parser.
+    fn adopt_image(&mut self, fired: &Fired, inflight: Option<TxOp>) -> Res<()> {
+        self.real = None;
+        self.root = self.tracker.borrow().image_root.clone();
+        {
+            // Everything inside a crash image is durable by definition.
+            let mut t = self.tracker.borrow_mut();
+            t.root = self.root.clone();
+            t.resync();
+        }
+        let commits = self.live_commits();
+        self.ctx.trace_str(&format!("image:{}:{}", fired.kind, commits.len()));
+        if !self.committed_prefix_ok(&commits) {
+            let class = if fired.in_rewrite {
+                "ack_lost:crash_during_recovery_rewrite".to_owned()
+            } else {
+                format!("ack_lost:crash_at_{}", fired.kind)
+            };
+            bail!(
+                class,
+                "image after crash at {} (torn {:?}) holds {} complete commit records, {} transactions were acknowledged/durable before",
+                fired.kind,
+                fired.torn,
+                commits.len(),
+                self.committed.len()
+            );
+        }
+        let extra = &commits[self.committed.len()..];
+        match (extra.len(), inflight) {
+            (0, _) => {}
+            (1, Some(op)) => {
+                let c = extra[0].clone();
+                let idx = usize::from(matches!(op, TxOp::Tick(_)));
+                if let Some(code) = self.kind_codes[idx] {
+                    if code != c.tx_kind {
+                        bail!("phantom_commit:wrong_kind", "in-flight {op:?} left a commit of kind {}", c.tx_kind);
+                    }
+                }
+                self.ctx.hit("reach.unacked_but_durable");
+                self.apply_durable(c, op, None)?;
+            }
+            (n, op) => bail!("phantom_commit:after_crash", "{n} unexpected commit records after crash, in-flight {op:?}"),
+        }
+        self.staged.clear();
+        self.pending.clear();
+        Ok(())
+    }
+
+    /// Record a durable transaction in the model and apply it to the twin.
+    fn apply_durable(&mut self, c: CommitInfo, op: TxOp, real_ack: Option<String>) -> Res<()> {
+        let twin = self.twin.as_mut().ok_or_else(|| Outcome::violation("harness:no_twin", ""))?;
+        match &op {
+            TxOp::Submit(p) => {
+                let env = harness(world::envelope(&self.all_progs[*p]), "envelope")?;
+                let h = twin.app().submit_intent_with_runtime_wal_ack(env);
+                let h = match h {
+                    Ok(h) => h,
+                    Err(e) => bail!("harness:twin_submit", "{e:?}"),
+                };
+                if let Some(ack) = &real_ack {
+                    let t = format!("{h:?}");
+                    if *ack != t {
+                        bail!("ack_mismatch:submit", "real {ack} twin {t}");
+                    }
+                }
+                self.known.insert(*p);
+            }
+            TxOp::Tick(consumed) => {
+                Self::flush_pending(twin, &mut self.pending, &self.sub_ids)?;
+                let r = match twin.tick_once() {
+                    Ok(r) => r,
+                    Err(e) => bail!("harness:twin_tick", "{e:?}"),
+                };
+                if let Some(ack) = &real_ack {
+                    let t = format!("{r:?}");
+                    if *ack != t {
+                        bail!("ack_mismatch:tick", "real {ack} twin {t}");
+                    }
+                }
+                for p in consumed {
+                    self.decided.insert(*p);
+                }
+                self.staged.retain(|p| !consumed.contains(p));
+            }
+        }
+        self.committed.push(Tx { digest: c.digest, kind: c.tx_kind, op });
+        self.session_commits += 1;
+        Ok(())
+    }
+
+    fn flush_pending(twin: &mut TrustedRuntimeHost, pending: &mut Vec<Pending>, sub_ids: &[Hash]) -> Res<()> {
+        for p in pending.drain(..) {
+            match p {
+                Pending::Stage(i, real_disp) => match twin.admit_installed_contract_submission(sub_ids[i]) {
+                    Ok(d) => {
+                        let t = format!("{d:?}");
+                        if t != real_disp {
+                            bail!("ack_mismatch:stage", "real {real_disp} twin {t}");
+                        }
+                    }
+                    Err(e) => bail!("ack_mismatch:stage", "real {real_disp} twin Err {e:?}"),
+                },
+                Pending::IdleTick => match twin.tick_once() {
+                    Ok(r) if r.is_empty() => {}
+                    other => bail!("harness:twin_idle_tick", "{other:?}"),
+                },
+            }
+        }
+        Ok(())
+    }
+
+    fn end_session(&mut self) {
+        if self.session_commits == 0 {
+            self.ctx.hit("fault.idle_session");
+            if !self.committed.is_empty() {
+                self.faults_fired += 1;
+                self.fault_on_nonempty_log = true;
+            }
+        }
+        self.session_commits = 0;
+        self.staged.clear();
+        self.pending.clear();
+    }
+
+    fn classify_reopen_error(&self, err: &str) -> String {
+        if err.contains("LsnContinuityMismatch") && self.lsn_hole() {
+            return "reopen_failed:idle_session_lsn_gap".to_owned();
+        }
+        let short: String = err.chars().filter(|c| c.is_ascii_alphanumeric() || *c == '(' || *c == '_').take(70).collect();
+        format!("reopen_failed:{short}")
+    }
+
+    /// Build a fresh host from a fresh runtime and reopen `self.root`, optionally dying during
+    /// recovery; then check the recovered host against the twin.
+    fn open_real(&mut self, reopen: &[CrashPoint]) -> Res<()> {
+        let mut points: Vec<Option<CrashPoint>> = Vec::new();
+        for cp in reopen {
+            points.push(Some(cp.clone()));
+        }
+        points.push(None);
+        let mut i = 0;
+        let host = loop {
+            let mut target = points.get(i).cloned().flatten();
+            i += 1;
+            if self.crashes >= MAX_CRASHES || self.committed.is_empty() {
+                target = None;
+            }
+            let last = target.is_none();
+            let mut host = harness(world::fresh_host(), "fresh_host")?;
+            let cb0 = callbacks();
+            self.arm(target);
+            let cfg = world::wal_config(&self.root);
+            let r = observed(&self.tracker, || host.enable_runtime_wal(cfg));
+            self.trace_kinds("open");
+            match r {
+                Exec::Done(Ok(())) => {
+                    if callbacks() != cb0 {
+                        bail!("recovery_ran_callback", "rule callbacks moved from {cb0} to {} during enable_runtime_wal", callbacks());
+                    }
+                    break host;
+                }
+                Exec::Done(Err(e)) => {
+                    let es = format!("{e:?}");
+                    bail!(self.classify_reopen_error(&es), "enable_runtime_wal on a crash image / restarted directory failed: {es}");
+                }
+                Exec::Crashed(f) => {
+                    drop(host);
+                    self.count_crash(&f, true);
+                    self.adopt_image(&f, None)?;
+                    self.end_session_after_aborted_open();
+                    if last {
+                        // cannot happen: no target armed
+                        bail!("harness:crash_without_target", "");
+                    }
+                }
+                Exec::Panicked(m) => bail!("panic:reopen", "{m}"),
+            }
+        };
+        self.real = Some(host);
+        self.tracker.borrow_mut().root = self.root.clone();
+        self.tracker.borrow_mut().resync();
+        self.session_commits = 0;
+        self.note_epoch_start()?;
+        self.check_recovered()?;
+        Ok(())
+    }
+
+    fn end_session_after_aborted_open(&mut self) {
+        // An aborted reopen is a session without commits (whether its epoch was persisted is
+        // read back from the ledger at the next successful open).
+        self.session_commits = 0;
+    }
+
+    /// Read the ledger the host just wrote: does the new epoch start right after the last
+    /// committed LSN?
+    fn note_epoch_start(&mut self) -> Res<()> {
+        let ledger = std::fs::read(self.root.join(disk::LEDGER_REL)).unwrap_or_default();
+        let Some(info) = disk::ledger_info(&ledger) else {
+            bail!("harness:ledger_unparsable", "ledger after successful open is not parsable by the harness ({} bytes)", ledger.len());
+        };
+        let Some(active) = info.active else {
+            bail!("ledger_without_active_epoch", "host opened but ledger has no active epoch");
+        };
+        let last = self.live_commits().last().map(|c| c.last_lsn);
+        self.epoch_start_gap = match last {
+            Some(l) => active.start_lsn != l + 1,
+            None => false,
+        };
+        if self.epoch_start_gap {
+            self.gap_epoch_seen = true;
+            self.ctx.hit("reach.epoch_start_lsn_gap");
+        }
+        Ok(())
+    }
+
+    /// (2) observational equality with the twin, (4) idempotence on a copy.
+    fn check_recovered(&mut self) -> Res<()> {
+        let commits = self.live_commits();
+        if commits.len() != self.committed.len() || !self.committed_prefix_ok(&commits) {
+            bail!(
+                "recovery_changed_durable_set",
+                "after reopening, the segment holds {} commits, model has {}",
+                commits.len(),
+                self.committed.len()
+            );
+        }
+        let sub_ids = self.sub_ids.clone();
+        let real = self.real.as_mut().ok_or_else(|| Outcome::violation("harness:no_host", ""))?;
+        let o_real = obs_of(real, &sub_ids, "recovered")?;
+        let twin = self.twin.as_mut().ok_or_else(|| Outcome::violation("harness:no_twin", ""))?;
+        let o_twin = obs_of(twin, &sub_ids, "twin")?;
+        let d = o_real.diff(&o_twin);
+        if let Some(first) = d.first() {
+            let key = first.split(':').next().unwrap_or("?").to_owned();
+            bail!(format!("recovery_mismatch:{key}"), "recovered host differs from Twin(durable) on {} observables:\n{}", d.len(), d.join("\n"));
+        }
+        self.ctx.trace(&o_real.digest());
+        // Idempotence: recover a copy of the recovered directory again.
+        let real_report = real.runtime_wal().map(|w| w.recover_read_only().map(|r| format!("{r:?}")));
+        let copy = self.base.join("idem");
+        let mut tree = disk::read_tree(&self.root);
+        if let Some(b) = tree.get_mut(disk::LOCK_REL) {
+            b.clear();
+        }
+        harness(disk::write_tree(&copy, &tree), "idem_copy")?;
+        let cb0 = callbacks();
+        let mut again = harness(world::fresh_host(), "fresh_host")?;
+        let r = crate::kernel::catch(|| again.enable_runtime_wal(world::wal_config(&copy)));
+        match r {
+            Ok(Ok(())) => {}
+            Ok(Err(e)) => {
+                let es = format!("{e:?}");
+                bail!(self.classify_reopen_error(&es).replace("reopen_failed", "second_recovery_failed"), "{es}");
+            }
+            Err(m) => bail!("panic:second_recovery", "{m}"),
+        }
+        if callbacks() != cb0 {
+            bail!("recovery_ran_callback", "second recovery moved the callback counter");
+        }
+        let o_again = obs_of(&mut again, &sub_ids, "second_recovery")?;
+        let d = o_real.diff(&o_again);
+        if let Some(first) = d.first() {
+            let key = first.split(':').next().unwrap_or("?").to_owned();
+            bail!(format!("recovery_not_idempotent:{key}"), "{}", d.join("\n"));
+        }
+        let again_report = again.runtime_wal().map(|w| w.recover_read_only().map(|r| format!("{r:?}")));
+        match (real_report, again_report) {
+            (Some(Ok(a)), Some(Ok(b))) => {
+                if a != b {
+                    bail!("recovery_not_idempotent:report", "read-only recovery reports differ between first and second recovery");
+                }
+            }
+            other => bail!("recovery_not_idempotent:report_unavailable", "{:?}", other.0.map(|r| r.is_ok())),
+        }
+        drop(again);
+        Ok(())
+    }
+
+    // ---- ops ----------------------------------------------------------------------------
+
+    fn history(&mut self) -> Res<()> {
+        let sc = self.sc;
+        for (i, e) in sc.ops.iter().enumerate() {
+            self.ctx.hit("time.ops");
+            self.ctx.trace_str(&format!("op{i}"));
+            match &e.op {
+                Op::Submit(p) => {
+                    if *p < sc.progs.len() {
+                        self.do_submit(*p, e.fault.as_ref())?;
+                    }
+                }
+                Op::Stage(p) => {
+                    if *p < sc.progs.len() {
+                        self.do_stage(*p)?;
+                    }
+                }
+                Op::Tick => self.do_tick(e.fault.as_ref())?,
+                Op::Restart { reopen } => self.do_restart(reopen)?,
+                Op::Manifest { fault, crash } => {
+                    if !sc.avoid {
+                        self.do_manifest(*fault, crash.as_ref())?;
+                    }
+                }
+            }
+        }
+        // Final clean restart: the whole history must still be recoverable.
+        self.do_restart(&[])?;
+        Ok(())
+    }
+
+    /// Avoidance mode: every session writes at least once before it ends.
+    fn ensure_session_wrote(&mut self) -> Res<bool> {
+        if !self.sc.avoid || self.session_commits > 0 {
+            return Ok(true);
+        }
+        if self.next_filler >= self.all_progs.len() {
+            return Ok(false);
+        }
+        let p = self.next_filler;
+        self.next_filler += 1;
+        self.do_submit(p, None)?;
+        Ok(self.session_commits > 0)
+    }
+
+    fn crash_allowed(&mut self) -> Res<bool> {
+        if self.crashes >= MAX_CRASHES {
+            return Ok(false);
+        }
+        self.ensure_session_wrote()
+    }
+
+    fn with_real<T>(&mut self, target: Option<CrashPoint>, what: &str, f: impl FnOnce(&mut TrustedRuntimeHost) -> T) -> Res<Exec<T>> {
+        let mut host = self.real.take().ok_or_else(|| Outcome::violation("harness:no_host", what.to_owned()))?;
+        self.arm(target);
+        let r = observed(&self.tracker, || f(&mut host));
+        self.trace_kinds(what);
+        match &r {
+            Exec::Done(_) => self.real = Some(host),
+            _ => {
+                let _ = crate::kernel::catch(move || drop(host));
+            }
+        }
+        Ok(r)
+    }
+
+    fn store_fault_arm(&mut self, target: u8) -> Res<()> {
+        if target >= 4 {
+            harness(std::fs::create_dir_all(self.root.join(disk::LEDGER_TMP_REL)).map_err(|e| e.to_string()), "block_ledger")?;
+            return Ok(());
+        }
+        let real = self.real.as_mut().ok_or_else(|| Outcome::violation("harness:no_host", ""))?;
+        harness(world::arm_fault(real, target), "arm_fault")
+    }
+
+    fn store_fault_disarm(&mut self, target: u8) -> Res<()> {
+        if target >= 4 {
+            let _ = std::fs::remove_dir_all(self.root.join(disk::LEDGER_TMP_REL));
+            return Ok(());
+        }
+        if let Some(real) = self.real.as_mut() {
+            harness(world::disarm_fault(real), "disarm_fault")?;
+        }
+        Ok(())
+    }
+
+    fn do_submit(&mut self, p: usize, fault: Option<&Fault>) -> Res<()> {
+        let env = harness(world::envelope(&self.all_progs[p]), "envelope")?;
+        let attempt_tx = !self.known.contains(&p);
+        let mut crash = None;
+        let mut reopen: &[CrashPoint] = &[];
+        let mut store = None;
+        match fault {
+            Some(Fault::Crash { at, reopen: r }) if attempt_tx => {
+                if self.crash_allowed()? {
+                    crash = Some(at.clone());
+                    reopen = r;
+                }
+            }
+            Some(Fault::Store { target }) if attempt_tx => store = Some(*target),
+            _ => {}
+        }
+        let sub_ids = self.sub_ids.clone();
+        let hole = self.lsn_hole();
+        let before = match store {
+            Some(t) => {
+                self.store_fault_arm(t)?;
+                let real = self.real.as_mut().ok_or_else(|| Outcome::violation("harness:no_host", ""))?;
+                Some(obs_of_h(real, &sub_ids, "before_fault", hole)?)
+            }
+            None => None,
+        };
+        let n0 = self.committed.len();
+        let e2 = env.clone();
+        let r = self.with_real(crash, "submit", move |h| h.app().submit_intent_with_runtime_wal_ack(e2))?;
+        if let Some(t) = store {
+            self.store_fault_disarm(t)?;
+        }
+        match r {
+            Exec::Panicked(m) => bail!("panic:submit", "{m}"),
+            Exec::Crashed(f) => {
+                self.count_crash(&f, false);
+                self.adopt_image(&f, attempt_tx.then_some(TxOp::Submit(p)))?;
+                self.end_session_quiet();
+                self.open_real(reopen)?;
+                self.check_duplicates()
+            }
+            Exec::Done(Ok(h)) => {
+                let commits = self.live_commits();
+                if !self.committed_prefix_ok(&commits) {
+                    bail!("live_log_lost_commit", "after submit the live segment no longer holds the earlier commits");
+                }
+                let new = &commits[n0..];
+                if h.submission_id != self.sub_ids[p] {
+                    bail!("ack_mismatch:submission_id", "handle id differs from the content-derived id");
+                }
+                if h.duplicate != !attempt_tx {
+                    bail!("duplicate_flag_wrong", "submit of prog {p}: duplicate={} but durable-known={}", h.duplicate, !attempt_tx);
+                }
+                if attempt_tx {
+                    if new.len() != 1 {
+                        bail!("ack_without_single_commit:submit", "acknowledged submit wrote {} commit records", new.len());
+                    }
+                    if let Some(t) = store {
+                        self.store_fault_ok(t, "submit")?;
+                    }
+                    let c = new[0].clone();
+                    self.kind_codes[0].get_or_insert(c.tx_kind);
+                    self.apply_durable(c, TxOp::Submit(p), Some(format!("{h:?}")))?;
+                } else {
+                    if !new.is_empty() {
+                        bail!("second_acceptance_transaction", "duplicate submit of prog {p} wrote {} commit records", new.len());
+                    }
+                    self.ctx.hit("reach.duplicate_submit");
+                    // The twin must call it a duplicate too, with the same handle.
+                    let twin = self.twin.as_mut().ok_or_else(|| Outcome::violation("harness:no_twin", ""))?;
+                    match twin.app().submit_intent_with_runtime_wal_ack(env) {
+                        Ok(th) => {
+                            if format!("{th:?}") != format!("{h:?}") {
+                                bail!("ack_mismatch:duplicate_submit", "real {h:?} twin {th:?}");
+                            }
+                        }
+                        Err(e) => bail!("harness:twin_dup_submit", "{e:?}"),
+                    }
+                }
+                Ok(())
+            }
+            Exec::Done(Err(e)) => {
+                let es = format!("{e:?}");
+                let Some(t) = store else {
+                    bail!("op_failed:submit", "submit of prog {p} failed without an injected fault: {es}");
+                };
+                self.fault_fired(&format!("fault.store.{}", world::FAULT_NAMES[usize::from(t.min(4))]));
+                self.after_failed_op(before, n0, "submit")?;
+                // Bounded liveness: the next attempt of the same op succeeds.
+                self.ctx.hit("reach.retry_after_store_fault");
+                self.do_submit(p, None)?;
+                if !self.known.contains(&p) {
+                    bail!("retry_failed:submit", "retry after store fault did not make the submission durable");
+                }
+                Ok(())
+            }
+        }
+    }
+
+    /// The op returned Ok although a store fault was armed.
+    fn store_fault_ok(&mut self, t: u8, what: &str) -> Res<()> {
+        match t {
+            // Fails only after the commit marker is synced (resp. only the ledger update fails):
+            // the host re-scans the log, finds the commit and acknowledges.
+            2 | 4 => {
+                self.fault_fired(&format!("fault.store.{}", world::FAULT_NAMES[usize::from(t)]));
+                self.ctx.hit("reach.store_fault_ok_commit_on_disk");
+                Ok(())
+            }
+            // The host never publishes a manifest: the armed fault cannot fire here.
+            3 => {
+                self.ctx.hit("reach.store_fault_armed_not_reachable");
+                Ok(())
+            }
+            _ => bail!("harness:store_fault_not_fired", "{what}: fault target {t} armed, a transaction was attempted, yet the op returned Ok"),
+        }
+    }
+
+    fn end_session_quiet(&mut self) {
+        if self.session_commits == 0 {
+            self.ctx.hit("fault.idle_session");
+        }
+        self.session_commits = 0;
+    }
+
+    /// (6) after a store fault: Err with observables unchanged and nothing new on disk.
+    fn after_failed_op(&mut self, before: Option<Obs>, n0: usize, what: &str) -> Res<()> {
+        let commits = self.live_commits();
+        if commits.len() != n0 || !self.committed_prefix_ok(&commits) {
+            if self.lsn_hole() {
+                bail!(
+                    "reopen_failed:idle_session_lsn_gap",
+                    "{what} returned Err although its commit is on disk: the post-error re-scan of the log fails on the LSN hole left by an idle session"
+                );
+            }
+            bail!(
+                format!("failed_op_left_commit:{what}"),
+                "{what} returned Err but the segment holds {} commits (before: {n0})",
+                commits.len()
+            );
+        }
+        let sub_ids = self.sub_ids.clone();
+        let hole = self.lsn_hole();
+        let real = self.real.as_mut().ok_or_else(|| Outcome::violation("harness:no_host", ""))?;
+        let after = obs_of_h(real, &sub_ids, "after_fault", hole)?;
+        if let Some(b) = before {
+            let d = b.diff(&after);
+            if let Some(first) = d.first() {
+                let key = first.split(':').next().unwrap_or("?").to_owned();
+                bail!(format!("failed_op_visible:{what}:{key}"), "{}", d.join("\n"));
+            }
+        }
+        Ok(())
+    }
+
+    fn do_stage(&mut self, p: usize) -> Res<()> {
+        let id = self.sub_ids[p];
+        let r = self.with_real(None, "stage", move |h| h.admit_installed_contract_submission(id))?;
+        match r {
+            Exec::Panicked(m) => bail!("panic:stage", "{m}"),
+            Exec::Crashed(_) => bail!("harness:crash_in_stage", ""),
+            Exec::Done(Ok(d)) => {
+                let text = format!("{d:?}");
+                let staged_now = text.starts_with("Staged");
+                let expect_staged = self.known.contains(&p) && !self.decided.contains(&p) && !self.staged.contains(&p);
+                if !self.known.contains(&p) {
+                    bail!("stage_of_unknown_accepted", "prog {p} is not durable-known but staging returned {text}");
+                }
+                if staged_now != expect_staged {
+                    bail!("stage_disposition_wrong", "prog {p}: expected staged={expect_staged}, got {text}");
+                }
+                if staged_now {
+                    self.staged.push(p);
+                    self.pending.push(Pending::Stage(p, text));
+                } else {
+                    self.ctx.hit("reach.duplicate_stage");
+                    if self.decided.contains(&p) {
+                        self.twin_stage_must_equal(p, &text)?;
+                    }
+                }
+                Ok(())
+            }
+            Exec::Done(Err(e)) => {
+                if self.known.contains(&p) && !self.decided.contains(&p) {
+                    bail!("op_failed:stage", "staging durable-known undecided prog {p} failed: {e:?}");
+                }
+                self.ctx.hit("reach.stage_rejected");
+                if self.decided.contains(&p) {
+                    self.twin_stage_must_equal(p, &format!("Err({e:?})"))?;
+                }
+                Ok(())
+            }
+        }
+    }
+
+    /// Staging an already decided submission: the twin (which applied the deciding tick) must
+    /// answer exactly like the real host.
+    fn twin_stage_must_equal(&mut self, p: usize, real_text: &str) -> Res<()> {
+        let id = self.sub_ids[p];
+        let twin = self.twin.as_mut().ok_or_else(|| Outcome::violation("harness:no_twin", ""))?;
+        let t = match twin.admit_installed_contract_submission(id) {
+            Ok(d) => format!("{d:?}"),
+            Err(e) => format!("Err({e:?})"),
+        };
+        if t != real_text {
+            bail!("ack_mismatch:stage_decided", "real {real_text} twin {t}");
+        }
+        Ok(())
+    }
+
+    /// (5) everything in durable(I) is a duplicate for the recovered host: re-submitting writes no
+    /// second acceptance transaction, re-staging a decided submission stages nothing.
+    fn check_duplicates(&mut self) -> Res<()> {
+        let known: Vec<usize> = self.known.iter().copied().collect();
+        for p in known {
+            self.do_submit(p, None)?;
+            if self.decided.contains(&p) {
+                self.do_stage(p)?;
+            }
+        }
+        self.ctx.hit("reach.duplicate_sweep_after_recovery");
+        Ok(())
+    }
+
+    fn do_tick(&mut self, fault: Option<&Fault>) -> Res<()> {
+        let attempt_tx = !self.staged.is_empty();
+        let consumed = self.staged.clone();
+        let mut crash = None;
+        let mut reopen: &[CrashPoint] = &[];
+        let mut store = None;
+        match fault {
+            Some(Fault::Crash { at, reopen: r }) if attempt_tx => {
+                if self.crash_allowed()? {
+                    crash = Some(at.clone());
+                    reopen = r;
+                }
+            }
+            Some(Fault::Store { target }) if attempt_tx => store = Some(*target),
+            _ => {}
+        }
+        let sub_ids = self.sub_ids.clone();
+        let hole = self.lsn_hole();
+        let before = match store {
+            Some(t) => {
+                self.store_fault_arm(t)?;
+                let real = self.real.as_mut().ok_or_else(|| Outcome::violation("harness:no_host", ""))?;
+                Some(obs_of_h(real, &sub_ids, "before_fault", hole)?)
+            }
+            None => None,
+        };
+        let n0 = self.committed.len();
+        let cb_before = callbacks();
+        let r = self.with_real(crash, "tick", |h| h.tick_once())?;
+        if let Some(t) = store {
+            self.store_fault_disarm(t)?;
+        }
+        match r {
+            Exec::Panicked(m) => bail!("panic:tick", "{m}"),
+            Exec::Crashed(f) => {
+                self.count_crash(&f, false);
+                self.adopt_image(&f, attempt_tx.then_some(TxOp::Tick(consumed)))?;
+                self.end_session_quiet();
+                self.open_real(reopen)?;
+                self.check_duplicates()
+            }
+            Exec::Done(Ok(records)) => {
+                let commits = self.live_commits();
+                if !self.committed_prefix_ok(&commits) {
+                    bail!("live_log_lost_commit", "after tick the live segment no longer holds the earlier commits");
+                }
+                let new = &commits[n0..];
+                if attempt_tx {
+                    if records.len() != 1 || records[0].admitted_count != consumed.len() {
+                        bail!("tick_admission_wrong", "staged {} but step records {:?}", consumed.len(), records);
+                    }
+                    if new.len() != 1 {
+                        bail!("ack_without_single_commit:tick", "published tick wrote {} commit records", new.len());
+                    }
+                    if let Some(t) = store {
+                        self.store_fault_ok(t, "tick")?;
+                    }
+                    if callbacks() == cb_before {
+                        bail!("harness:rule_not_invoked", "a tick admitted {} intents without any interpreter callback", consumed.len());
+                    }
+                    for p in &consumed {
+                        let id = self.sub_ids[*p];
+                        let text = self.real.as_mut().map(|h| format!("{:?}", h.app().observe_intent_outcome(&id))).unwrap_or_default();
+                        let word: String = text.chars().take_while(|c| c.is_ascii_alphanumeric()).collect();
+                        self.ctx.hit(&format!("reach.outcome.{word}"));
+                    }
+                    let c = new[0].clone();
+                    self.kind_codes[1].get_or_insert(c.tx_kind);
+                    self.ctx.hit("time.ticks");
+                    self.apply_durable(c, TxOp::Tick(consumed), Some(format!("{records:?}")))?;
+                    if self.sc.deep {
+                        self.compare_live()?;
+                    }
+                } else {
+                    if !records.is_empty() || !new.is_empty() {
+                        bail!("idle_tick_wrote", "tick with empty inbox produced {records:?} and {} commits", new.len());
+                    }
+                    self.ctx.hit("reach.idle_tick");
+                    self.pending.push(Pending::IdleTick);
+                }
+                Ok(())
+            }
+            Exec::Done(Err(e)) => {
+                let es = format!("{e:?}");
+                let Some(t) = store else {
+                    bail!("op_failed:tick", "tick failed without an injected fault: {es}");
+                };
+                self.fault_fired(&format!("fault.store.{}", world::FAULT_NAMES[usize::from(t.min(4))]));
+                self.after_failed_op(before, n0, "tick")?;
+                self.ctx.hit("reach.retry_after_store_fault");
+                self.do_tick(None)?;
+                if self.committed.len() != n0 + 1 {
+                    bail!("retry_failed:tick", "retry after store fault did not publish the tick");
+                }
+                Ok(())
+            }
+        }
+    }
+
+    fn compare_live(&mut self) -> Res<()> {
+        let sub_ids = self.sub_ids.clone();
+        let hole = self.lsn_hole();
+        let real = self.real.as_mut().ok_or_else(|| Outcome::violation("harness:no_host", ""))?;
+        let a = obs_of_h(real, &sub_ids, "live", hole)?;
+        let twin = self.twin.as_mut().ok_or_else(|| Outcome::violation("harness:no_twin", ""))?;
+        let b = obs_of(twin, &sub_ids, "twin")?;
+        let d = a.diff(&b);
+        if let Some(first) = d.first() {
+            let key = first.split(':').next().unwrap_or("?").to_owned();
+            bail!(format!("continuation_mismatch:{key}"), "live host differs from twin after a durable tick:\n{}", d.join("\n"));
+        }
+        Ok(())
+    }
+
+    fn do_restart(&mut self, reopen: &[CrashPoint]) -> Res<()> {
+        if !self.ensure_session_wrote()? && self.sc.avoid {
+            // No filler left: skip the restart rather than create an idle session.
+            if self.session_commits == 0 {
+                return Ok(());
+            }
+        }
+        self.real = None;
+        self.ctx.hit("reach.clean_restart");
+        self.end_session();
+        self.open_real(reopen)?;
+        if self.sc.deep {
+            self.check_duplicates()?;
+        }
+        Ok(())
+    }
+
+    /// Store-level manifest session (never in avoidance mode: it is an idle epoch).
+    fn do_manifest(&mut self, fault: bool, crash: Option<&CrashPoint>) -> Res<()> {
+        self.real = None;
+        self.end_session();
+        let commits = self.live_commits();
+        let manifest = WalManifest {
+            manifest_digest: *blake3::hash(format!("verif-manifest-{}", commits.len()).as_bytes()).as_bytes(),
+            last_committed_lsn: commits.last().map(|c| Lsn::from_raw(c.last_lsn)),
+            last_commit_digest: commits.last().map(|c| c.digest),
+            sealed_segment_count: 1,
+        };
+        let before = std::fs::read(self.root.join(disk::MANIFEST_REL)).ok();
+        let target = if self.crashes < MAX_CRASHES && !self.committed.is_empty() { crash.cloned() } else { None };
+        self.arm(target);
+        let root = self.root.clone();
+        let m2 = manifest.clone();
+        let r = observed(&self.tracker, move || -> Result<Result<(), String>, String> {
+            let mut store = FilesystemWalStore::open(&root, WalSegmentId::from_raw(1)).map_err(|e| format!("{e:?}"))?;
+            let epoch = store.acquire_fresh_writer_epoch(Lsn::from_raw(0)).map_err(|e| format!("{e:?}"))?;
+            if fault {
+                store.replace_fault_plan_for_test(FilesystemWalFaultPlan::fail_next(FilesystemWalFaultTarget::PublishManifest));
+            }
+            Ok(store.publish_manifest(epoch.epoch_id, m2).map_err(|e| format!("{e:?}")))
+        });
+        self.trace_kinds("manifest");
+        self.ctx.hit("reach.manifest_session");
+        match r {
+            Exec::Panicked(m) => bail!("panic:manifest_session", "{m}"),
+            Exec::Crashed(f) => {
+                self.count_crash(&f, false);
+                self.adopt_image(&f, None)?;
+            }
+            Exec::Done(Err(e)) => {
+                bail!(self.classify_reopen_error(&e).replace("reopen_failed", "store_session_failed"), "{e}");
+            }
+            Exec::Done(Ok(Err(e))) => {
+                if !fault {
+                    bail!("op_failed:publish_manifest", "{e}");
+                }
+                self.fault_fired("fault.store.publish_manifest");
+                if std::fs::read(self.root.join(disk::MANIFEST_REL)).ok() != before {
+                    bail!("failed_op_visible:publish_manifest", "manifest file changed although publish returned Err");
+                }
+            }
+            Exec::Done(Ok(Ok(()))) => {
+                if fault {
+                    bail!("store_fault_ignored:publish_manifest", "PublishManifest fault armed but publish returned Ok");
+                }
+                match crate::kernel::catch(|| validate_filesystem_manifest(&self.root)) {
+                    Ok(Ok(rep)) => {
+                        if rep.last_commit_digest != commits.last().map(|c| c.digest) {
+                            bail!("manifest_validation_wrong", "validated last commit digest differs from the harness parser");
+                        }
+                    }
+                    Ok(Err(e)) => bail!("manifest_rejected_after_publish", "{e:?}"),
+                    Err(m) => bail!("panic:validate_manifest", "{m}"),
+                }
+            }
+        }
+        // A manifest on disk must always decode (temp + rename is atomic).
+        if self.root.join(disk::MANIFEST_REL).exists() {
+            match crate::kernel::catch(|| warp_core::causal_wal::read_filesystem_manifest(&self.root)) {
+                Ok(Ok(_)) => {}
+                Ok(Err(e)) => bail!("manifest_torn", "manifest on disk does not decode: {e:?}"),
+                Err(m) => bail!("panic:read_manifest", "{m}"),
+            }
+        }
+        self.open_real(&[])
+    }
+}
+
+// ---------------------------------------------------------------------------------------------
+// Crash-free log production with twin snapshots (prefix sweep, C11)
+// ---------------------------------------------------------------------------------------------
+
+/// (segment length, ledger bytes) after an op.
+pub(crate) struct Version {
+    pub seg_len: usize,
+    pub ledger: Vec<u8>,
+}
+
+/// A log produced by a crash-free, fully checked workload.
+pub(crate) struct Produced {
+    /// Directory tree of the closed log.
+    pub tree: Tree,
+    pub segment: Vec<u8>,
+    pub commits: Vec<CommitInfo>,
+    /// `twin_obs[t]` = observables of the crash-free twin after exactly `t` transactions.
+    pub twin_obs: Vec<Obs>,
+    pub sub_ids: Vec<Hash>,
+    pub versions: Vec<Version>,
+}
+
+impl Run<'_> {
+    fn snapshot(&self) -> Version {
+        Version {
+            seg_len: std::fs::read(self.root.join(disk::SEGMENT_REL)).map(|b| b.len()).unwrap_or(0),
+            ledger: std::fs::read(self.root.join(disk::LEDGER_REL)).unwrap_or_default(),
+        }
+    }
+
+    /// Run the (fault-free) ops; snapshot the disk after every op and the twin after every
+    /// durable transaction.
+    fn produce(&mut self) -> Res<(Vec<Version>, Vec<Obs>)> {
+        let sc = self.sc;
+        let sub_ids = self.sub_ids.clone();
+        let mut versions = vec![self.snapshot()];
+        let mut twin_obs = Vec::new();
+        {
+            let twin = self.twin.as_mut().ok_or_else(|| Outcome::violation("harness:no_twin", ""))?;
+            twin_obs.push(obs_of(twin, &sub_ids, "twin")?);
+        }
+        for e in &sc.ops {
+            self.ctx.hit("time.ops");
+            let before = self.committed.len();
+            match &e.op {
+                Op::Submit(p) if *p < sc.progs.len() => self.do_submit(*p, None)?,
+                Op::Stage(p) if *p < sc.progs.len() => self.do_stage(*p)?,
+                Op::Tick => self.do_tick(None)?,
+                Op::Restart { .. } => {
+                    if self.session_commits > 0 {
+                        self.do_restart(&[])?;
+                    }
+                }
+                _ => {}
+            }
+            versions.push(self.snapshot());
+            if self.committed.len() > before {
+                let twin = self.twin.as_mut().ok_or_else(|| Outcome::violation("harness:no_twin", ""))?;
+                twin_obs.push(obs_of(twin, &sub_ids, "twin")?);
+            }
+        }
+        Ok((versions, twin_obs))
+    }
+}
+
+pub(crate) fn ops_from_workload(w: &[world::WOp]) -> Vec<OpEntry> {
+    w.iter()
+        .map(|w| OpEntry {
+            op: match w {
+                world::WOp::Submit(p) => Op::Submit(*p),
+                world::WOp::Stage(p) => Op::Stage(*p),
+                world::WOp::Tick => Op::Tick,
+                world::WOp::Restart => Op::Restart { reopen: vec![] },
+            },
+            fault: None,
+        })
+        .collect()
+}
+
+/// Produce a closed log under `base` from a crash-free workload (every C10 check applies while
+/// it is produced); optionally publish a manifest matching the final log.
+pub(crate) fn produce_log(progs: &[Prog], ops: &[world::WOp], ctx: &mut RunCtx, base: PathBuf, manifest: bool) -> Res<Produced> {
+    let sc = C10 { avoid: false, mode: Mode::History, progs: progs.to_vec(), fillers: vec![], ops: ops_from_workload(ops), deep: false };
+    let mut run = Run::start_in(&sc, ctx, base)?;
+    let r = run.produce();
+    let root = run.root.clone();
+    let sub_ids = run.sub_ids.clone();
+    let n = run.committed.len();
+    run.real = None;
+    run.twin = None;
+    warp_core::verif::install_io_observer(None);
+    run.ctx.count("time.wal_transactions", n as u64);
+    let (versions, twin_obs) = r?;
+    if manifest {
+        let commits = run.live_commits();
+        let m = WalManifest {
+            manifest_digest: *blake3::hash(b"verif-c11-manifest").as_bytes(),
+            last_committed_lsn: commits.last().map(|c| Lsn::from_raw(c.last_lsn)),
+            last_commit_digest: commits.last().map(|c| c.digest),
+            sealed_segment_count: 1,
+        };
+        let published = crate::kernel::catch(|| -> Result<(), String> {
+            let mut store = FilesystemWalStore::open(&root, WalSegmentId::from_raw(1)).map_err(|e| format!("{e:?}"))?;
+            let epoch = store.acquire_fresh_writer_epoch(Lsn::from_raw(0)).map_err(|e| format!("{e:?}"))?;
+            store.publish_manifest(epoch.epoch_id, m).map_err(|e| format!("{e:?}"))
+        });
+        match published {
+            Ok(Ok(())) => {}
+            Ok(Err(e)) => bail!("harness:publish_manifest", "{e}"),
+            Err(m) => bail!("panic:publish_manifest", "{m}"),
+        }
+    }
+    let mut tree = disk::read_tree(&root);
+    if let Some(b) = tree.get_mut(disk::LOCK_REL) {
+        b.clear();
+    }
+    let segment = tree.get(disk::SEGMENT_REL).cloned().unwrap_or_default();
+    let (commits, parsed) = disk::commits_in(&segment);
+    if commits.len() != n || !matches!(parsed.tail, disk::Tail::Clean) {
+        bail!("harness:produced_log_shape", "{} commits parsed, {n} in model, tail {:?}", commits.len(), parsed.tail);
+    }
+    Ok(Produced { tree, segment, commits, twin_obs, sub_ids, versions })
 }
